@@ -51,7 +51,7 @@ class Slice:
             if isinstance(key, int):
                 if body.vars.get(str(key)) == name:
                     return True
-            else:
+            elif key.startswith("c"):
                 k = key[1:]
                 for vk, vn in body.vars.items():
                     if vn == name and re.match(r"1(\.\*)?\.f%s:" % k, vk):
@@ -69,6 +69,7 @@ class FlowGraph:
         self.read_of = {}
         self.agg_of = {}
         self.bodies = {b.path: b for b in fn.bodies}
+        self._tuples = {}
         for b in fn.bodies:
             self._build(b)
 
@@ -86,6 +87,13 @@ class FlowGraph:
 
     def _use_place(self, body, dst, place):
         src = self.key(body, place)
+        # field-sensitive reads of locally built tuples: `(a, b).1` depends on b only
+        tl = self._tuples.get(body.path)
+        if tl and isinstance(src[1], int) and src[1] in tl:
+            pr = place_proj(place)
+            m = re.match(r"f(\d+):", pr[0]) if pr else None
+            if m:
+                src = (body.path, "t%d#%s" % (src[1], m.group(1)))
         self._edge(dst, src)
         if "." in place:
             self.read_of.setdefault(dst, []).append((body, place))
@@ -107,6 +115,29 @@ class FlowGraph:
 
     def _build(self, body):
         ws = self.ws
+        # locals that are only ever assigned whole tuple aggregates
+        tdefs, other = {}, set()
+        for blk in body.blocks:
+            for s_ in blk["s"]:
+                d_ = s_.get("d")
+                if d_ is None or s_["k"] == "dead":
+                    continue
+                l_ = place_local(d_)
+                if s_["k"] == "agg" and s_.get("ak") == "tuple" and "." not in d_:
+                    tdefs.setdefault(l_, 0)
+                elif s_["k"] in ("ref", "refmut", "rawptr") and False:
+                    pass
+                else:
+                    other.add(l_)
+            t_ = blk.get("term")
+            if t_ and t_["k"] == "call" and "dest" in t_:
+                other.add(place_local(t_["dest"]))
+        # a tuple whose address is taken mutably may change through the pointer
+        for blk in body.blocks:
+            for s_ in blk["s"]:
+                if s_["k"] in ("refmut", "rawptr"):
+                    other.add(place_local(s_["p"]))
+        self._tuples[body.path] = {l_ for l_ in tdefs if l_ not in other}
         for bi, blk in enumerate(body.blocks):
             if blk.get("cleanup"):
                 continue
@@ -127,6 +158,12 @@ class FlowGraph:
                     self._use_place(body, dst, s["p"])
                 elif k == "agg":
                     self.agg_of.setdefault(dst, []).append((body, s))
+                    if s.get("ak") == "tuple" and isinstance(dst[1], int) and dst[1] in self._tuples.get(body.path, ()) and "." not in d:
+                        for kk, o in enumerate(s["ops"]):
+                            fn_ = (body.path, "t%d#%d" % (dst[1], kk))
+                            self._use_op(body, fn_, o)
+                            self._edge(dst, fn_)
+                        continue
                     for o in s["ops"]:
                         self._use_op(body, dst, o)
                     if s["ak"] in ("closure", "coroutine", "coroutine_closure"):
